@@ -762,6 +762,12 @@ class G(object):
         else:
             slots = False
         ca = self.fresh(['class_attr', 'limit_value', 'A'])
+        outer_ints = [n for n in self.names('int') if n.isidentifier()]
+        if outer_ints and self.p(0.35):
+            # a class attribute spelled like a variable of an enclosing scope: methods that read the bare name see the enclosing
+            # variable (class bodies are skipped by closure lookup), `self.<name>` sees the attribute
+            ca = self.ch(outer_ints)
+            self.features.add('class_attr_shadows_outer')
         self.emit('%s = %s' % (ca, self.int_expr()))
         attrs.append(ca)
         if self.p(0.3):
@@ -775,12 +781,25 @@ class G(object):
         m = self.fresh(['method_one', 'compute', 'B'])
         self.emit('def %s(%s, amount, scale_factor=2):' % (m, self_name))
         self.emit('    local_total = %s.%s + amount * scale_factor' % (self_name, ia))
-        self.emit('    return local_total + %s.%s' % (self_name, ca))
+        if outer_ints and self.p(0.5):
+            self.features.add('method_reads_outer')
+            self.emit('    return local_total + %s.%s + %s' % (self_name, ca, ca if ca in outer_ints and self.p(0.6) else self.ch(outer_ints)))
+        else:
+            self.emit('    return local_total + %s.%s' % (self_name, ca))
         methods = []
+        outer_funcs = [f for f in self.names('func') if isinstance(f, tuple)]
         for _ in range(self.i(0, 2)):
             # methods with generated signatures; sometimes no explicit self (variadic / keyword-only / static / class methods)
             kind = self.ch(['plain', 'plain', 'noself', 'static', 'classm'])
             mname = self.fresh(['general_method', 'variadic_method', 'scale', 'D'])
+            outer_call = None
+            if outer_funcs and self.p(0.5) and not any(mm[0] == outer_funcs[0][0] for mm in methods):
+                # a method spelled like a function of an enclosing scope that it calls by the bare name
+                self.features.add('method_named_like_outer_func')
+                fname, finfo = self.ch(outer_funcs)
+                if not any(mm[0] == fname for mm in methods):
+                    mname = fname
+                    outer_call = 'len(repr(%s))' % self.call_text(fname, finfo)
             first = {'plain': self_name, 'noself': None, 'static': None, 'classm': self.ch(['cls', 'klass', 'A'])}[kind]
             info, sig = self.make_sig(first=first)
             if kind == 'noself':
@@ -821,6 +840,8 @@ class G(object):
             pool = [n for n in self.scopes[-1]['int']]
             if kind == 'noself' and info['vararg']:
                 pool.append('len(%s)' % info['vararg'])
+            if outer_call:
+                pool = pool[:3] + [outer_call]
             self.emit('return %s' % (' + '.join(pool[:4]) if pool else self.int_lit()))
             self.in_func, self.in_loop, self.cur_ret = save
             self.ind -= 1
